@@ -23,10 +23,12 @@ impose_mean_mean impose_mean_keeps
 impose_variance_spec impose_std_spec impose_variance_degenerate impose_spread_spec
 normalize_proportional normalize_total normalize_zsum_total impose_weight_norm_spec
 impose_support_spec impose_support_zero_iff impose_unweighted_spec
-impose_collapse_spec collapse_total_not_kept_witness collapse_pair_not_zeroed_witness
+impose_collapse_spec impose_collapse_survivor_spec collapse_total_not_kept_witness collapse_pair_not_zeroed_witness
 lnorm_zero lnorm_pow lnorm_one lnorm_inf chebyshev_def hamming_def minkowski_pow euclidean_sq manhattan_def
 tolerance_def almostEqual_def
 median_shift_equivariant impose_median_spec
+sort_def trim_weights_order_only tmean_def tvariance_def trimmed_k0_def k_zero_cut
+impose_tmean_spec impose_tvariance_spec impose_tstd_spec impose_tvariance_degenerate
 """.split()]
 
 RTOL = 1e-9
@@ -783,11 +785,93 @@ def is_star_forest(pairs):
     return True
 
 
+def pair_order_class(n, pairs):
+    """independent reading of a pair selection, pair by pair in the order the code sees them:
+    -> (component id per node, cyc, late)
+    cyc  = some pair closes a cycle (both ends already in the same component; includes self pairs);
+    late = some pair joins two components that BOTH already exist (the only situation in which the result of
+           tools.connected depends on the order of the pairs: F17).
+    Without cyc and late every pair either starts a new group or attaches one new node to an existing group."""
+    comp = {}
+    cyc = late = False
+    nxt = 0
+    for i, j in pairs:
+        ci = comp.get(i); cj = comp.get(j)
+        if i == j:
+            cyc = True
+            if ci is None:
+                comp[i] = nxt; nxt += 1
+        elif ci is None and cj is None:
+            comp[i] = comp[j] = nxt; nxt += 1
+        elif ci is None:
+            comp[i] = cj
+        elif cj is None:
+            comp[j] = ci
+        elif ci == cj:
+            cyc = True
+        else:
+            late = True
+            for t in [t for t, c in comp.items() if c == cj]:
+                comp[t] = ci
+    return comp, cyc, late
+
+
+def collapse_monitor(n, pairs, xs, ws, y, w, scale):
+    """the property's clause for impose_collapse, evaluated on the implementation's result (y, w) for the pair
+    selection `pairs` (indices ALREADY normalised to 0..n-1 by the harness, independently of the code):
+    total weight and weighted mean kept; every selected pair collapsed; and - whenever the selection is unambiguous
+    (no cycle, no late merge) - exactly the designated weights are zero: in every connected group ONE survivor
+    carries the group's weight, all other members are exactly 0 and sit on the survivor's position; weights outside
+    the selection are untouched.  -> [(class_key, what)]"""
+    mon = []
+    comp, cyc, late = pair_order_class(n, pairs)
+    order = "cyclic-pairs" if cyc else ("late-merge-pairs" if late else "order-safe-pairs")
+    if finite(w) and not q_close(sum(fr(w)), sum(fr(ws)), scale):
+        key = "impose_collapse/total-weight/cyclic-pairs" if cyc else "impose_collapse/total-weight/acyclic-pairs"
+        mon.append((key, "total weight %r -> %r for pairs %r (ws=%r)" % (float(sum(fr(ws))), float(sum(fr(w))), pairs, ws)))
+    if finite(w) and finite(y) and sum(fr(w)) != 0 and sum(fr(ws)) != 0 and not q_close(q_wmean(y, w), q_wmean(xs, ws), scale):
+        mon.append(("impose_collapse/mean-kept", "weighted mean %r -> %r (pairs=%r xs=%r ws=%r)" %
+                    (float(q_wmean(xs, ws)), float(q_wmean(y, w)), pairs, xs, ws)))
+    notz = [(i, j) for i, j in pairs if i != j and w[i] != 0.0 and w[j] != 0.0]
+    notp = [(i, j) for i, j in pairs if y[i] != y[j] and not (y[i] != y[i] and y[j] != y[j])]
+    if notz or notp:
+        key = "impose_collapse/pair-not-collapsed/" + ("late-merge-pairs" if late else order)
+        mon.append((key, "pairs %r of %r keep two non-zero weights / pairs %r keep distinct positions: samples %r weights %r (from xs=%r ws=%r)" %
+                    (notz, pairs, notp, y, w, xs, ws)))
+    if not cyc and not late and finite(w):
+        groups = {}
+        for t, c in comp.items():
+            groups.setdefault(c, []).append(t)
+        for mem in groups.values():
+            mem = sorted(mem)
+            live = [t for t in mem if w[t] != 0.0]
+            gw = sum(Fr(ws[t]) for t in mem)
+            if len(live) > 1:
+                mon.append(("impose_collapse/group-not-collapsed", "group %r of pairs %r keeps %d non-zero weights %r (from ws=%r): "
+                            "exactly one survivor may carry weight" % (mem, pairs, len(live), [w[t] for t in mem], ws)))
+            elif not q_close(sum(Fr(w[t]) for t in mem), gw, scale):
+                mon.append(("impose_collapse/group-weight", "group %r of pairs %r carries weight %r, expected the group's weight %r (weights %r from %r)" %
+                            (mem, pairs, float(sum(Fr(w[t]) for t in mem)), float(gw), w, ws)))
+            elif gw != 0 and all(Fr(ws[t]) >= 0 for t in mem) and len(live) != 1:
+                mon.append(("impose_collapse/group-weight", "group %r of pairs %r has no survivor: weights %r from %r" % (mem, pairs, w, ws)))
+            if finite(y) and len(set(y[t] for t in mem)) > 1:
+                mon.append(("impose_collapse/group-positions", "group %r of pairs %r is not on one position: %r" % (mem, pairs, [y[t] for t in mem])))
+        if any(not same_num(w[t], ws[t]) for t in range(n) if t not in comp):
+            mon.append(("impose_collapse/untouched-weight-changed", "weights %r from %r pairs %r" % (w, ws, pairs)))
+        if finite(y):
+            # positions outside the selection move rigidly (the mean-restoring shift is one constant)
+            out = [t for t in range(n) if t not in comp]
+            sh = [Fr(y[t]) - Fr(xs[t]) for t in out]
+            if sh and any(not q_close(a, sh[0], scale) for a in sh):
+                mon.append(("impose_collapse/untouched-positions", "positions outside the selection are not shifted rigidly: %r -> %r pairs %r" % (xs, y, pairs)))
+    return mon, cyc, late
+
+
 def fam_collapse(rng, exact):
     from mystic.math import measures as M
     from mystic.tools import connected
     n = rng.randint(2, 7)
-    style = rng.choice(["stars", "stars", "random", "random", "cyclic"])
+    style = rng.choice(["stars", "stars", "random", "random", "cyclic", "alias", "alias"])
     pairs = []
     if style == "stars":
         nodes = list(range(n)); rng.shuffle(nodes)
@@ -796,6 +880,19 @@ def fam_collapse(rng, exact):
         for j in nodes[ncent:]:
             if rng.random() < 0.7:
                 pairs.append((rng.choice(cents), j))
+    elif style == "alias":
+        # order-safe forests in which a node occurs in several pairs and in BOTH slots: grown pair by pair, every
+        # pair attaches one new node to an already placed one (either slot) or starts a new group
+        nodes = list(range(n)); rng.shuffle(nodes)
+        placed = []
+        for t in nodes:
+            if placed and rng.random() < 0.75:
+                o = rng.choice(placed)
+                pairs.append((o, t) if rng.random() < 0.5 else (t, o))
+                placed.append(t)
+            elif rng.random() < 0.8:
+                placed.append(t)
+        pairs = [p for p in pairs]
     else:
         for _ in range(rng.randint(0, min(5, n))):
             i = rng.randrange(n); j = rng.randrange(n)
@@ -809,7 +906,14 @@ def fam_collapse(rng, exact):
             i, j = rng.choice(pairs); pairs.append((j, i))
         elif rng.random() < 0.5:
             i = rng.randrange(n); pairs.append((i, i))
-    raw = [tuple((a - n if rng.random() < 0.2 else a) for a in p) for p in pairs]
+    # python-style negative spellings, independently per OCCURRENCE and per slot: the same sample is then written
+    # positively in one pair and negatively in another (the code must identify them, measures.py l.1786)
+    if style == "alias":
+        mode = rng.choice(["second", "first", "both", "all", "mixed"])
+        pneg = {"second": (0.0, 0.6), "first": (0.6, 0.0), "both": (0.4, 0.4), "all": (1.0, 1.0), "mixed": (0.2, 0.2)}[mode]
+    else:
+        pneg = (0.2, 0.2)
+    raw = [((p[0] - n) if rng.random() < pneg[0] else p[0], (p[1] - n) if rng.random() < pneg[1] else p[1]) for p in pairs]
     as_set = rng.random() < 0.3
     if as_set:
         arg = set(raw); raw = list(arg)                        # the iteration order the code will see
@@ -818,6 +922,10 @@ def fam_collapse(rng, exact):
         arg = list(raw) if rng.random() < 0.7 else tuple(raw)
     ws = gen_weights(rng, n, exact, pzero=0.15)
     xs = gen_samples(rng, n, exact, ws="weighted")
+    if style == "alias" and rng.random() < 0.7:
+        xs = gen_samples(rng, n, exact, ws="weighted", distinct=True)
+        if len(set(xs)) < n:
+            xs = [x + (i if exact else 0.37 * i) for i, x in enumerate(xs)]      # all positions distinct
     ct = Cert(); ct.mean(xs, ws)
     xs_in = list(xs); ws_in = list(ws)
     o1 = call(connected, list(pairs))
@@ -828,6 +936,8 @@ def fam_collapse(rng, exact):
     ex = exact and ct.ok
     line = "C18 collapse (xs %s) (ws %s) (pairs (%s))" % (fl(xs), fl(ws), " ".join("(%d %d)" % p for p in raw))
     scale = max([abs(x) for x in xs] + [abs(w) for w in ws] + [1.0]) * 4
+    negs = sum(1 for p in raw for a in p if a < 0)
+    aliased = len(set(a for p in raw for a in p)) > len(set(a for p in pairs for a in p))
 
     def check(r):
         if obs[0] == "err" or r[0] == "err":
@@ -843,30 +953,14 @@ def fam_collapse(rng, exact):
         mon = []
         if xs_in != xs or ws_in != ws:
             mon.append(("impose_collapse/mutates-input", "the input lists were edited"))
-        comp, cyc = components(n, pairs)
-        star = is_star_forest(pairs)
-        if finite(w) and not q_close(sum(fr(w)), sum(fr(ws)), scale):
-            key = "impose_collapse/total-weight/cyclic-pairs" if cyc else "impose_collapse/total-weight/acyclic-pairs"
-            mon.append((key, "total weight %r -> %r for pairs %r (ws=%r)" % (float(sum(fr(ws))), float(sum(fr(w))), pairs, ws)))
-        if finite(w) and finite(y) and sum(fr(w)) != 0 and not q_close(q_wmean(y, w), q_wmean(xs, ws), scale):
-            mon.append(("impose_collapse/mean-kept", "weighted mean %r -> %r (pairs=%r xs=%r ws=%r)" %
-                        (float(q_wmean(xs, ws)), float(q_wmean(y, w)), pairs, xs, ws)))
-        notz = [(i, j) for i, j in pairs if i != j and w[i] != 0.0 and w[j] != 0.0]
-        notp = [(i, j) for i, j in pairs if y[i] != y[j] and not (y[i] != y[i] and y[j] != y[j])]
-        if notz or notp:
-            key = "impose_collapse/pair-not-collapsed/" + ("star-pairs" if star else "non-star-pairs")
-            mon.append((key, "pairs %r of %r keep two non-zero weights / pairs %r keep distinct positions: samples %r weights %r (from xs=%r ws=%r)" %
-                        (notz, pairs, notp, y, w, xs, ws)))
-        if star and not cyc and finite(w):
-            # the unambiguous case: each centre carries its group's weight, every other member is zero, the rest untouched
-            for c in set(i for i, _ in pairs):
-                mem = [j for i, j in pairs if i == c]
-                if not q_close(Fr(w[c]), sum(Fr(ws[t]) for t in [c] + list(set(mem))), scale) or any(w[t] != 0.0 for t in mem):
-                    mon.append(("impose_collapse/group-weight", "centre %d of %r: weights %r from %r" % (c, pairs, w, ws)))
-            touched = set(a for p in pairs for a in p)
-            if any(not same_num(w[t], ws[t]) for t in range(n) if t not in touched):
-                mon.append(("impose_collapse/untouched-weight-changed", "weights %r from %r pairs %r" % (w, ws, pairs)))
-        tag = "impose_collapse:%s:%s:%s" % (style, "set" if as_set else "seq", "exact" if ex else "general")
+        if len(y) != n or len(w) != n:
+            mon.append(("impose_collapse/length", "lengths %d/%d for %d" % (len(y), len(w), n)))
+            return d, mon, "impose_collapse:badlen", False
+        m2, cyc, late = collapse_monitor(n, pairs, xs, ws, y, w, scale)
+        mon += [(k, "%s [as written: %r]" % (t, raw)) for k, t in m2]
+        tag = "impose_collapse:%s:%s:%s:%s" % (style, "set" if as_set else "seq",
+                                            "cyclic" if cyc else ("late-merge" if late else "order-safe"),
+                                            "aliased-negative" if aliased else ("negative" if negs else "positive"))
         return d, mon, tag, bool(pairs)
     return dict(op="impose_collapse", inputs={"pairs": raw, "xs": xs, "ws": ws, "as_set": as_set}, line=line, obs=obs, exact=ex, check=check)
 
@@ -1020,15 +1114,15 @@ def fam_approx(rng, exact):
 
 
 def fam_robust(rng, exact):
-    """median / mad / trimmed variants: monitor only (no model): the imposers reach their targets, as measured
-    by the implementation's own median / mad / tmean / tvariance AND by an independent textbook median."""
+    """median / mad: monitor-only stream on distinct samples: the imposers reach their targets, as measured by the
+    implementation's own median / mad AND by an independent textbook median (the modelled stream is fam_median; the
+    trimmed variants are fam_trim)."""
     from mystic.math import measures as M
-    sub = rng.choice(["median", "mad", "tmean", "tvariance", "tstd"])
+    sub = rng.choice(["median", "mad"])
     n = rng.randint(2, 8)
     xs = rng.sample([i / 4.0 for i in range(-32, 33)], n) if exact else [rng.uniform(-10, 10) for _ in range(n)]   # distinct
     ws = None if rng.random() < 0.5 else [float(rng.randint(1, 4)) for _ in range(n)]
-    t = dyadic(rng, 0, 6, 4) + 0.25 if sub != "median" and sub != "tmean" else dyadic(rng, -6, 6, 4)
-    kk = rng.choice([0, 10, 25, (10, 20), (0, 30)]); clip = rng.random() < 0.3
+    t = dyadic(rng, 0, 6, 4) + 0.25 if sub != "median" else dyadic(rng, -6, 6, 4)
     scale = 50.0
     mon = []
     with warnings.catch_warnings():
@@ -1067,34 +1161,240 @@ def fam_robust(rng, exact):
                         tb = med([abs(a - med(y)) for a in y])
                         if not close(tb, t, scale):
                             mon.append(("impose_mad/textbook", "textbook mad of result %r, target %r (xs=%r)" % (tb, t, xs)))
-            elif sub == "tmean":
-                y = M.impose_tmean(t, xs, ws, k=kk, clip=clip)
-                got = M.tmean(y, ws, k=kk, clip=clip)
-                if got == got and not close(got, t, scale):
-                    mon.append(("impose_tmean/target", "tmean of result %r, target %r (xs=%r ws=%r k=%r clip=%r)" % (got, t, xs, ws, kk, clip)))
-                if kk == 0 and not close(M.tmean(xs, ws), float(q_wmean(xs, ws)), scale):
-                    mon.append(("tmean/definition", "tmean(k=0) %r != weighted mean (xs=%r ws=%r)" % (M.tmean(xs, ws), xs, ws)))
-            else:
-                tv = M.tvariance(xs, ws, k=kk, clip=clip)
-                if tv == tv and tv > 1e-3:
-                    if sub == "tvariance":
-                        y = M.impose_tvariance(t, xs, ws, k=kk, clip=clip); want = t
-                    else:
-                        y = M.impose_tstd(t, xs, ws, k=kk, clip=clip); want = t * t
-                    got = M.tvariance(y, ws, k=kk, clip=clip)
-                    if not close(got, want, scale * scale):
-                        mon.append(("impose_%s/target" % sub, "tvariance of result %r, target %r (xs=%r ws=%r k=%r clip=%r)" % (got, want, xs, ws, kk, clip)))
-                    m1 = M.tmean(y, ws, k=kk, clip=clip); m0 = M.tmean(xs, ws, k=kk, clip=clip)
-                    if not close(m1, m0, scale):
-                        mon.append(("impose_%s/tmean-kept" % sub, "tmean %r -> %r (xs=%r ws=%r k=%r clip=%r)" % (m0, m1, xs, ws, kk, clip)))
-                    if kk == 0 and not close(tv, float(q_wmoment(xs, ws, 2)), scale * scale):
-                        mon.append(("tvariance/definition", "tvariance(k=0) %r != weighted variance (xs=%r ws=%r)" % (tv, xs, ws)))
         except Exception as exc:      # noqa
-            mon.append(("%s/raises" % sub, "%s raised %r (xs=%r ws=%r t=%r k=%r clip=%r)" % (sub, exc, xs, ws, t, kk, clip)))
+            mon.append(("%s/raises" % sub, "%s raised %r (xs=%r ws=%r t=%r)" % (sub, exc, xs, ws, t)))
 
     def check(r):
         return [], mon, "robust:%s:%s" % (sub, "weighted" if ws is not None else "plain"), True
-    return dict(op="robust/" + sub, inputs={"xs": xs, "ws": ws, "t": t, "k": kk, "clip": clip}, line=None, obs=None, exact=False, check=check)
+    return dict(op="robust/" + sub, inputs={"xs": xs, "ws": ws, "t": t}, line=None, obs=None, exact=False, check=check)
+
+
+# ------------------------------------------------------------------ trimmed / winsorised statistics
+def tb_trim(xs, ws, klo, khi, clip):
+    """INDEPENDENT textbook trimmed / winsorised weights, in exact rationals.  The samples are sorted; sample i owns the
+    interval (W_{i-1}, W_i] of the cumulative normalised weight; trimming klo% / khi% keeps the part of that interval
+    inside [a, b] = [klo/100, 1 - khi/100]; winsorising moves the mass below a onto the a-quantile sample and the
+    mass above b onto the b-quantile sample.  A cut that falls EXACTLY between two samples makes the quantile of a
+    winsorised sample ambiguous: both conventions are returned.
+    -> None (undefined: negative weights, zero total, nothing retained) or
+       dict(x=[sorted samples], r=[alternative retained-mass lists], margin=distance of the nearest non-coincident cut)"""
+    n = len(xs)
+    w = [Fr(1)] * n if ws is None else fr(ws)
+    if any(a < 0 for a in w) or sum(w) <= 0:
+        return None
+    prs = sorted(zip(fr(xs), w), key=lambda p: p[0])
+    x = [p[0] for p in prs]; w = [p[1] for p in prs]
+    T = sum(w)
+    a = Fr(float(klo)) / 100; b = 1 - Fr(float(khi)) / 100
+    if not (0 <= a < b <= 1):
+        return None
+    W = [Fr(0)]
+    for t in w:
+        W.append(W[-1] + t / T)
+    r = [max(Fr(0), min(W[i + 1], b) - max(W[i], a)) for i in range(n)]
+    if sum(r) <= 0:
+        return None
+    cuts = [abs(c - e) for c in W[1:-1] for e in (a, b) if c != e]
+    margin = min(cuts) if cuts else Fr(1)
+    alts = [r]
+    if clip:
+        own = [i for i in range(n) if w[i] > 0]
+        # a-quantile: first sample whose interval reaches beyond a (upper convention) / contains a (lower convention)
+        lo_up = min(i for i in own if W[i + 1] > a); lo_dn = min(i for i in own if W[i + 1] >= a) if a > 0 else lo_up
+        hi_dn = max(i for i in own if W[i] < b); hi_up = max(i for i in own if W[i] <= b) if b < 1 else hi_dn
+        alts = []
+        for lo in {lo_up, lo_dn}:
+            for hi in {hi_dn, hi_up}:
+                q = list(r); q[lo] += a; q[hi] += 1 - b
+                alts.append(q)
+    return dict(x=x, r=alts, margin=margin)
+
+
+def tb_stats(tb):
+    """[(trimmed mean, trimmed variance)] for every admissible reading"""
+    out = []
+    for r in tb["r"]:
+        R = sum(r)
+        m = sum(p * q for p, q in zip(tb["x"], r)) / R
+        v = sum(q * (p - m) ** 2 for p, q in zip(tb["x"], r)) / R
+        out.append((m, v))
+    return out
+
+
+def fam_trim(rng, exact):
+    """_sort / _k / tmean / tvariance / tstd / impose_tmean / impose_tvariance / impose_tstd against the model
+    (Model/Trimmed.lean: bit-exact on ALL floats - sequential and CPython-compensated sums, numpy round(15), negative
+    index wrap and IndexError are modelled) and against an independent textbook definition (tb_trim)."""
+    import numpy as np
+    from mystic.math import measures as M
+    sub = rng.choice(["k", "stat", "stat", "impose_tmean", "impose_tvariance", "impose_tvariance", "impose_tstd"])
+    n = rng.randint(1, 9)
+    if exact:
+        xs = [dyadic(rng, -8, 8, 4) for _ in range(n)] if rng.random() < 0.6 else [float(rng.randint(-4, 4)) for _ in range(n)]
+    else:
+        xs = [rng.uniform(-10, 10) for _ in range(n)]
+    if rng.random() < 0.5 and n >= 3:
+        # skewed data: the trimmed core is asymmetric (a mean trimmed twice differs from the trimmed mean)
+        xs = sorted(xs); xs[-1] += (8.0 if exact else rng.uniform(5, 20)); xs[0] -= (0.5 if exact else rng.uniform(0, 1))
+        rng.shuffle(xs)
+    u = rng.random()
+    if u < 0.35:
+        ws = None
+    elif u < 0.7:
+        ws = [float(rng.choice([0, 1, 1, 2, 3, 4])) for _ in range(n)]
+    else:
+        ws = [0.0 if rng.random() < 0.15 else (dyadic(rng, 0, 3, 3) + 0.125 if exact else rng.uniform(0.05, 3.0)) for _ in range(n)]
+    if ws is not None and not any(ws) and rng.random() < 0.9:
+        ws[rng.randrange(n)] = 1.0
+    wl = [1.0] * n if ws is None else ws
+    tot = sum(Fr(a) for a in wl)
+    v = rng.random()
+    if v < 0.55:
+        k = rng.choice([0, 0, 10, 25, 25, 12.5, 20, 30, 40, 5, (10, 20), (0, 30), (25, 0), (20, 40), (12.5, 25), (40, 10)])
+    elif v < 0.75 and tot > 0:
+        # a cut that falls exactly between two samples (in exact arithmetic): k = 100 * W_i
+        order = sorted(range(n), key=lambda i: xs[i])
+        i = rng.randrange(n); j = rng.randrange(n)
+        klo = float(100 * sum(Fr(wl[t]) for t in order[:i]) / tot); khi = float(100 * sum(Fr(wl[t]) for t in order[n - j:]) / tot) if j else 0.0
+        k = (klo, khi) if rng.random() < 0.7 else (klo, rng.choice([0, 10, 25]))
+    elif v < 0.88:
+        k = (rng.uniform(0, 50), rng.uniform(0, 50)) if rng.random() < 0.7 else round(rng.uniform(0, 50), 1)
+    else:
+        k = rng.choice([50, 100, (30, 70), (100, 0), (0, 100), (50, 50), (60, 40), (99, 1), (-1, 5), (5, -0.5), (60, 50), 50.5])
+    klo, khi = k if isinstance(k, tuple) else (k, k)
+    clip = rng.random() < 0.4
+    norm = rng.random() < 0.3
+    t = dyadic(rng, -6, 6, 4)
+    if sub in ("impose_tvariance", "impose_tstd"):
+        t = dyadic(rng, 0, 6, 4) + (0.25 if rng.random() < 0.9 else 0.0)
+
+    def ties(vals):
+        if ws is None:
+            return False
+        seen = {}
+        return any(seen.setdefault(float(a), c) != c for a, c in zip(vals, ws))
+    skip = ties(xs)
+    mon = []
+    own = {}
+    with warnings.catch_warnings():
+        warnings.simplefilter("ignore")
+        ax = maybe_np(rng, xs); aw = maybe_np(rng, ws)
+        if sub == "k":
+            obs = call(lambda: (lambda sw: (flist(sw[0]), flist(M._k(sw[1], k, clip, norm))))(M._sort(ax, aw)))
+        elif sub == "stat":
+            obs = call(lambda: (float(M.tmean(ax, aw, k=k, clip=clip)), float(M.tvariance(ax, aw, k=k, clip=clip)), float(M.tstd(ax, aw, k=k, clip=clip))))
+        elif sub == "impose_tmean":
+            obs = call(lambda: flist(M.impose_tmean(t, ax, aw, k=k, clip=clip)))
+        else:
+            fn = M.impose_tvariance if sub == "impose_tvariance" else M.impose_tstd
+            obs = call(lambda: flist(fn(t, ax, aw, k=k, clip=clip)))
+            try:
+                tv0 = float(M.tvariance(xs, ws, k=k, clip=clip)); vv = t * t if sub == "impose_tstd" else t
+                if tv0:
+                    skip = skip or ties((np.asarray(xs) * np.sqrt(float(vv) / tv0)).tolist())
+            except Exception:      # noqa
+                pass
+        # the implementation's own statistics of input and result (self-consistency, as far as they are defined)
+        try:
+            own["m0"] = float(M.tmean(xs, ws, k=k, clip=clip)); own["v0"] = float(M.tvariance(xs, ws, k=k, clip=clip))
+            if obs[0] == "ok" and sub.startswith("impose"):
+                own["m1"] = float(M.tmean(obs[1], ws, k=k, clip=clip)); own["v1"] = float(M.tvariance(obs[1], ws, k=k, clip=clip))
+        except Exception:      # noqa
+            own = {}
+    line = "C18 trim (kind %s) (xs %s) (ws %s) (klo %s) (khi %s) (clip %s) (norm %s) (t %s)" % (
+        sub, fl(xs), wtok(ws), f2b(float(klo)), f2b(float(khi)), "true" if clip else "false", "true" if norm else "false", f2b(t))
+    scale = max([abs(a) for a in xs] + [abs(t), 1.0]) * 4
+    sc2 = scale * scale
+    tb = tb_trim(xs, ws, klo, khi, clip) if (0 <= klo and 0 <= khi and klo + khi < 100) else None
+    what = "xs=%r ws=%r k=%r clip=%r" % (xs, ws, k, clip)
+
+    def near(q, wants, sc):
+        return any(q_close(q, wnt, sc) for wnt in wants)
+
+    def check(r):
+        tag = "trim:%s:%s" % (sub, "clip" if clip else "trim")
+        # ---- correspondence (bit-exact; not for equal samples carrying different weights: numpy's argsort order)
+        d = []
+        if skip:
+            tag += ":tie-skipped"
+        elif obs[0] == "err" or r[0] == "err":
+            if not (obs[0] == r[0] and obs[1] == r[1]):
+                d.append("%s: impl=%r model=%r" % (sub, obs, r[:2]))
+            tag += ":err-" + (obs[1] if obs[0] == "err" else "model")
+        elif sub == "k":
+            d += diff_vec("_sort.samples", True, obs[1][0], r, "x") + diff_vec("_k", True, obs[1][1], r, "w")
+        elif sub == "stat":
+            d += (diff_scalar("tmean", True, ("ok", obs[1][0]), r, "tmean") + diff_scalar("tvariance", True, ("ok", obs[1][1]), r, "tvar")
+                  + diff_scalar("tstd", True, ("ok", obs[1][2]), r, "tstd"))
+        else:
+            d += diff_vec(sub, True, obs[1], r, "y")
+        # ---- monitor: the textbook definition, independent of model and implementation
+        if tb is None or obs[0] != "ok":
+            if tb is not None and obs[0] == "err":
+                mon.append(("%s/raises" % sub, "%s raised %s although the trimmed statistic is defined (%s)" % (sub, obs[1], what)))
+            return d, mon, tag + ":undefined", False
+        if clip and tb["margin"] < Fr(1, 10 ** 9):
+            return d, mon, tag + ":near-cut", False         # quantile of a winsorised sample within rounding of a jump
+        st0 = tb_stats(tb)
+        m0s = [p[0] for p in st0]; v0s = [p[1] for p in st0]
+        if sub == "k":
+            x = obs[1][0]; w = obs[1][1]
+            if finite(w):
+                T = sum(Fr(a) for a in wl)
+                f = Fr(1) if norm else T
+                def per_value(vals, masses):             # equal samples are one atom: their order is immaterial
+                    acc = {}
+                    for a, c in zip(vals, masses):
+                        acc[Fr(a)] = acc.get(Fr(a), Fr(0)) + Fr(c)
+                    return acc
+                got = per_value(x, w)
+                if len(x) != n or not any(all(q_close(got.get(a, Fr(0)), c * f, float(T) + 1.0) for a, c in per_value(tb["x"], q).items())
+                                          for q in tb["r"]):
+                    mon.append(("_k/definition", "_k gives %r, textbook retained mass %r (%s norm=%r)" % (w, [float(a * f) for a in tb["r"][0]], what, norm)))
+            if x != sorted(xs):
+                mon.append(("_sort/definition", "_sort gives %r for %r" % (x, xs)))
+        elif sub == "stat":
+            tm, tv, ts = obs[1]
+            if not (tm == tm) or not near(Fr(tm), m0s, scale):
+                mon.append(("tmean/definition", "tmean = %r, textbook trimmed mean %r (%s)" % (tm, float(m0s[0]), what)))
+            if not (tv == tv) or not near(Fr(tv), v0s, sc2):
+                mon.append(("tvariance/definition", "tvariance = %r, textbook trimmed variance %r (%s)" % (tv, float(v0s[0]), what)))
+            if not (ts == ts) or ts < 0 or not near(Fr(ts) * Fr(ts), v0s, sc2):
+                mon.append(("tstd/definition", "tstd = %r, textbook trimmed variance %r (%s)" % (ts, float(v0s[0]), what)))
+        else:
+            y = obs[1]
+            if len(y) != n:
+                mon.append(("%s/length" % sub, "returned %d points for %d samples" % (len(y), n)))
+                return d, mon, tag, False
+            nondeg = min(v0s) >= Fr(1, 1000)
+            if sub != "impose_tmean" and not nondeg:
+                return d, mon, tag + ":degenerate", False    # the property excludes (near-)degenerate variance
+            if not finite(y):
+                mon.append(("%s/non-finite" % sub, "result %r (%s t=%r)" % (y, what, t)))
+                return d, mon, tag, False
+            tb1 = tb_trim(y, ws, klo, khi, clip)
+            if tb1 is None or (clip and tb1["margin"] < Fr(1, 10 ** 9)):
+                return d, mon, tag + ":near-cut", False
+            st1 = tb_stats(tb1); m1s = [p[0] for p in st1]; v1s = [p[1] for p in st1]
+            if sub == "impose_tmean":
+                if not any(q_close(a, t, scale) for a in m1s):
+                    mon.append(("impose_tmean/target", "textbook trimmed mean of the result is %r, target %r (%s)" % (float(m1s[0]), t, what)))
+                if not any(near(a, v0s, sc2) for a in v1s):
+                    mon.append(("impose_tmean/tvariance-kept", "textbook trimmed variance %r -> %r (%s)" % (float(v0s[0]), float(v1s[0]), what)))
+                if own and own["m1"] == own["m1"] and not close(own["m1"], t, scale):
+                    mon.append(("impose_tmean/target-own", "tmean of the result is %r, target %r (%s)" % (own["m1"], t, what)))
+            else:
+                want = Fr(t) * Fr(t) if sub == "impose_tstd" else Fr(t)
+                if not any(q_close(a, want, sc2) for a in v1s):
+                    mon.append(("%s/target" % sub, "textbook trimmed variance of the result is %r, target %r (%s)" % (float(v1s[0]), float(want), what)))
+                if not any(near(a, m0s, scale) for a in m1s):
+                    mon.append(("%s/tmean-kept" % sub, "textbook trimmed mean %r -> %r (%s)" % (float(m0s[0]), float(m1s[0]), what)))
+                if own and own["v1"] == own["v1"] and not close(own["v1"], float(want), sc2):
+                    mon.append(("%s/target-own" % sub, "tvariance of the result is %r, target %r (%s)" % (own["v1"], float(want), what)))
+        nt = n >= 3 and (klo > 0 or khi > 0) and len(set(xs)) > 1
+        return d, mon, tag, nt
+    return dict(op="trim/" + sub, inputs={"xs": xs, "ws": ws, "k": list(k) if isinstance(k, tuple) else k, "clip": clip, "norm": norm, "t": t},
+                line=line, obs=obs, exact=True, check=check)
 
 
 def fam_median(rng, exact):
@@ -1202,7 +1502,7 @@ def fam_malformed(rng, exact):
 
 FAMILIES = [("stat", fam_stat, 5), ("ess", fam_ess, 4), ("impose", fam_impose, 7), ("weights", fam_weights, 4),
             ("surgery", fam_surgery, 4), ("collapse", fam_collapse, 4), ("dist", fam_dist, 5), ("approx", fam_approx, 1),
-            ("robust", fam_robust, 2), ("median", fam_median, 3), ("malformed", fam_malformed, 1)]
+            ("robust", fam_robust, 1), ("median", fam_median, 3), ("trim", fam_trim, 6), ("malformed", fam_malformed, 1)]
 _FAM_BAG = [f for f in FAMILIES for _ in range(f[2])]
 
 
@@ -1275,15 +1575,9 @@ def witnesses():
         y = flist(obs[1][0]); w = flist(obs[1][1])
         if not (cmp_vec(True, y, floats_of(r[1]["y"])) and cmp_vec(True, w, floats_of(r[1]["w"]))):
             out.append(Finding("correspondence", "impose_collapse/diverges", "witness %r: impl=%r model=%r" % (pairs, obs, rep), desc))
-        _, cyc = components(n, pairs)
-        if sum(w) != sum(ws):
-            out.append(Finding("monitor", "impose_collapse/total-weight/" + ("cyclic-pairs" if cyc else "acyclic-pairs"),
-                               "total weight %r -> %r for pairs %r" % (sum(ws), sum(w), pairs), desc))
-        notz = [(i, j) for i, j in pairs if i != j and w[i] != 0.0 and w[j] != 0.0]
-        notp = [(i, j) for i, j in pairs if y[i] != y[j]]
-        if notz or notp:
-            out.append(Finding("monitor", "impose_collapse/pair-not-collapsed/" + ("star-pairs" if is_star_forest(pairs) else "non-star-pairs"),
-                               "pairs %r of %r keep two non-zero weights / pairs %r keep distinct positions: %r %r" % (notz, pairs, notp, y, w), desc))
+        m2, cyc, late = collapse_monitor(n, list(pairs), xs, ws, y, w, 24.0)
+        for key, what in m2:
+            out.append(Finding("monitor", key, what, desc))
     # F18: impose_mad with tied deviations of different weights
     xs = [0.25, -3.75, 6.25, -2.0]; ws = [4.0, 1.0, 2.0, 1.0]; t = 3.5
     with warnings.catch_warnings():
@@ -1301,10 +1595,15 @@ def witnesses():
 RULE = ("cases: random calls of mean/moment/variance/std/spread/support(_index)/ess_*/expectation/_expected_moment, "
         "impose_mean/variance/std/spread, normalize/impose_sum/impose_weight_norm (numeric and 'l<p>' mass, zsum), "
         "impose_support/impose_unweighted (negative, duplicate and out-of-range indices, list/tuple/set), impose_collapse + "
-        "tools.connected (stars, chains, cyclic and self pairs, list/tuple/set), Lnorm (p=0,1,2,3,4,inf), chebyshev/hamming/"
+        "tools.connected (stars, chains, cyclic and self pairs, order-safe forests whose nodes occur in several pairs and in both slots, "
+        "negative spellings per occurrence and per slot that alias positively written indices of the same sample, list/tuple/set), Lnorm (p=0,1,2,3,4,inf), chebyshev/hamming/"
         "manhattan/euclidean/minkowski (matrix axis=0 and pairwise axis=1 forms), approx.tolerance/almostEqual (band edges +-1ulp); "
         "lengths 1-7, zero / negative weights, ties, all-equal samples, tolerance cuts equal to a weight; plus a monitor-only "
-        "stream for median/mad/trimmed imposers, a modelled median/mad/impose_median/impose_mad stream (bit-exact) and a malformed stream (empty input, empty support, bad pair index) compared on "
+        "stream for median/mad imposers, a modelled median/mad/impose_median/impose_mad stream (bit-exact), a modelled trimmed stream "
+        "(_sort/_k/tmean/tvariance/tstd/impose_tmean/impose_tvariance/impose_tstd: number and tuple k, trimming and winsorising, norm, skewed "
+        "samples, integer / dyadic / general weights with zeros, cuts that fall exactly between two samples, k=0, klo+khi=100, 100%, negative "
+        "and >100 percentages, all-zero weights: bit-exact on ALL floats, plus an independent exact-rational textbook trimmed / winsorised "
+        "mean and variance from the retained mass per sorted sample) and a malformed stream (empty input, empty support, bad pair index) compared on "
         "the error enum. 60% of the cases are drawn in the exactness regime (dyadic data, certified per case: every summed term "
         "list is a multiple of 2^-40 bounded by 256) and compared bit-exactly; the rest are general floats compared at rel 1e-9. "
         "non-trivial = the operation had something to do (>= 2 distinct samples / a weight actually dropped or rescaled / a pair "
@@ -1312,7 +1611,8 @@ RULE = ("cases: random calls of mean/moment/variance/std/spread/support(_index)/
 TRUSTED = ["Lean 4.33 kernel; axioms per theorem listed under coverage.theorems",
            "hand-written model Model/Measures.lean tied to mystic/math/measures.py, distance.py, tools.connected, approx.py by this differential run only",
            "summation order (python compensated sum, numpy pairwise sum) is not modelled: bit-exact comparison only where every sum is exact; libm pow for p-th roots (p >= 3) compared at rel 1e-9 only",
-           "median/mad/impose_median/impose_mad are modelled with a STABLE insertion sort: cases where equal samples carry different weights (numpy's argsort order is then an implementation detail) are not compared; _k/tmean/tvariance/tstd and their imposers are NOT modelled (monitor only); impose_moment, impose_product, the *reweighted* and optimizer-based imposers are not covered",
+           "median/mad/impose_median/impose_mad and _sort/_k/tmean/tvariance/tstd/impose_tmean/impose_tvariance/impose_tstd are modelled with a STABLE insertion sort: cases where equal samples carry different weights (numpy's argsort order is then an implementation detail) are not compared bit-exactly (the textbook monitor still applies); impose_moment, impose_product, the *reweighted* and optimizer-based imposers are not covered",
+           "trimmed family: numpy's ndarray.round(15) = rint(x*1e15)/1e15 (round-half-even), CPython 3.12's compensated float sum and numpy's sequential cumsum are re-implemented in the driver / model and tied to the real ones by the bit-exact comparison only; a winsorised quantile that falls within 1e-9 of a jump of the cumulative weight is not judged by the textbook monitor (either neighbouring sample is accepted at an exact jump)",
            "DSL twins harness/dsl.py and Model/Dsl.lean for the function argument of expectation / ess_*"]
 ASSUME = ["IEEE binary64 + - * / sqrt and comparisons agree between Lean Float and CPython/numpy",
           "the sign of a zero and NaN payloads are not compared",
